@@ -1,6 +1,7 @@
 import Proofs.FilterInter2
 import Proofs.FilterHeader
 import Proofs.FilterPhrase
+import Generated.C11
 /-!
 # C11 — Filtering keeps exactly the n-grams a restricted decoder can query
 
@@ -395,6 +396,14 @@ theorem phrase_sound_union (sents : List (List (List Bytes))) (ws : List Bytes) 
     cases ks with
     | nil => cases hk
     | cons k ks => rfl
+
+/-- the `FindSubstring` path at the highest order the tools are built for (`KENLM_MAX_ORDER`,
+regenerated from lm/max_order.hh): an n-gram of that order lying inside one phrase of sentence `s`
+is accepted — there is no length limit on the indexed parts of a phrase -/
+theorem phrase_sound_max_order (sents : List (List (List Bytes))) (s : Nat) (g a b : List Bytes)
+    (_hlen : g.length = KV.Gen.C11.kenlmMaxOrder) (hp : a ++ g ++ b ∈ sents.getD s []) :
+    graphAccept sents s g = true :=
+  phrase_sound sents s g (Or.inl ⟨_, hp, a, b, rfl⟩)
 
 /-- the lower bound the checks enforce is implied by the graph model (so "tool = graph model"
 on a run implies "tool ⊇ Tiles" on that run) -/
